@@ -60,42 +60,42 @@ def resultOf : List String → Option CallResult
   | ["invalidArgs"] => some .invalidArgs
   | _ => none
 
-def parseReq (st : BState) : List String → Option Req
+def parseReqWith (cookieOf : String → Option Cookie) : List String → Option Req
   | ["createObject", s, u] => do pure (.createObject (← s.toNat?) (← uuidOf u))
-  | ["destroyObject", s, c] => do pure (.destroyObject (← s.toNat?) (← st.cookieOf c))
-  | ["createService", s, o, u, v] => do pure (.createService (← s.toNat?) (← st.cookieOf o) (← uuidOf u) (← v.toNat?))
-  | ["createService2", s, o, u, "bad"] => do pure (.createService2 (← s.toNat?) (← st.cookieOf o) (← uuidOf u) none)
+  | ["destroyObject", s, c] => do pure (.destroyObject (← s.toNat?) (← cookieOf c))
+  | ["createService", s, o, u, v] => do pure (.createService (← s.toNat?) (← cookieOf o) (← uuidOf u) (← v.toNat?))
+  | ["createService2", s, o, u, "bad"] => do pure (.createService2 (← s.toNat?) (← cookieOf o) (← uuidOf u) none)
   | ["createService2", s, o, u, v, sa] => do
     let sub ← (match sa with | "-" => some none | "t" => some (some true) | "f" => some (some false) | _ => none)
-    pure (.createService2 (← s.toNat?) (← st.cookieOf o) (← uuidOf u)
+    pure (.createService2 (← s.toNat?) (← cookieOf o) (← uuidOf u)
       (some { version := (← v.toNat?), subscribeAll := sub }))
-  | ["destroyService", s, c] => do pure (.destroyService (← s.toNat?) (← st.cookieOf c))
-  | ["callFunction", s, c, f, p] => do pure (.callFunction (← s.toNat?) (← st.cookieOf c) (← f.toNat?) (← ofHex p))
-  | ["callFunction2", s, c, f, v, p] => do pure (.callFunction2 (← s.toNat?) (← st.cookieOf c) (← f.toNat?) (← optNat v) (← ofHex p))
+  | ["destroyService", s, c] => do pure (.destroyService (← s.toNat?) (← cookieOf c))
+  | ["callFunction", s, c, f, p] => do pure (.callFunction (← s.toNat?) (← cookieOf c) (← f.toNat?) (← ofHex p))
+  | ["callFunction2", s, c, f, v, p] => do pure (.callFunction2 (← s.toNat?) (← cookieOf c) (← f.toNat?) (← optNat v) (← ofHex p))
   | "callFunctionReply" :: s :: r => do pure (.callFunctionReply (← s.toNat?) (← resultOf r))
   | ["abortFunctionCall", s] => do pure (.abortFunctionCall (← s.toNat?))
-  | ["subscribeEvent", s, c, e] => do pure (.subscribeEvent (← optNat s) (← st.cookieOf c) (← e.toNat?))
-  | ["unsubscribeEvent", c, e] => do pure (.unsubscribeEvent (← st.cookieOf c) (← e.toNat?))
-  | ["emitEvent", c, e, p] => do pure (.emitEvent (← st.cookieOf c) (← e.toNat?) (← ofHex p))
-  | ["queryServiceVersion", s, c] => do pure (.queryServiceVersion (← s.toNat?) (← st.cookieOf c))
-  | ["queryServiceInfo", s, c] => do pure (.queryServiceInfo (← s.toNat?) (← st.cookieOf c))
-  | ["subscribeService", s, c] => do pure (.subscribeService (← s.toNat?) (← st.cookieOf c))
-  | ["unsubscribeService", c] => do pure (.unsubscribeService (← st.cookieOf c))
-  | ["subscribeAllEvents", s, c] => do pure (.subscribeAllEvents (← optNat s) (← st.cookieOf c))
-  | ["unsubscribeAllEvents", s, c] => do pure (.unsubscribeAllEvents (← optNat s) (← st.cookieOf c))
+  | ["subscribeEvent", s, c, e] => do pure (.subscribeEvent (← optNat s) (← cookieOf c) (← e.toNat?))
+  | ["unsubscribeEvent", c, e] => do pure (.unsubscribeEvent (← cookieOf c) (← e.toNat?))
+  | ["emitEvent", c, e, p] => do pure (.emitEvent (← cookieOf c) (← e.toNat?) (← ofHex p))
+  | ["queryServiceVersion", s, c] => do pure (.queryServiceVersion (← s.toNat?) (← cookieOf c))
+  | ["queryServiceInfo", s, c] => do pure (.queryServiceInfo (← s.toNat?) (← cookieOf c))
+  | ["subscribeService", s, c] => do pure (.subscribeService (← s.toNat?) (← cookieOf c))
+  | ["unsubscribeService", c] => do pure (.unsubscribeService (← cookieOf c))
+  | ["subscribeAllEvents", s, c] => do pure (.subscribeAllEvents (← optNat s) (← cookieOf c))
+  | ["unsubscribeAllEvents", s, c] => do pure (.unsubscribeAllEvents (← optNat s) (← cookieOf c))
   | ["createChannel", s, e, cap] => do pure (.createChannel (← s.toNat?) (← endOf e) (← cap.toNat?))
-  | ["closeChannelEnd", s, c, e] => do pure (.closeChannelEnd (← s.toNat?) (← st.cookieOf c) (← endOf e))
-  | ["claimChannelEnd", s, c, e, cap] => do pure (.claimChannelEnd (← s.toNat?) (← st.cookieOf c) (← endOf e) (← cap.toNat?))
-  | ["sendItem", c, p] => do pure (.sendItem (← st.cookieOf c) (← ofHex p))
-  | ["addChannelCapacity", c, cap] => do pure (.addChannelCapacity (← st.cookieOf c) (← cap.toNat?))
+  | ["closeChannelEnd", s, c, e] => do pure (.closeChannelEnd (← s.toNat?) (← cookieOf c) (← endOf e))
+  | ["claimChannelEnd", s, c, e, cap] => do pure (.claimChannelEnd (← s.toNat?) (← cookieOf c) (← endOf e) (← cap.toNat?))
+  | ["sendItem", c, p] => do pure (.sendItem (← cookieOf c) (← ofHex p))
+  | ["addChannelCapacity", c, cap] => do pure (.addChannelCapacity (← cookieOf c) (← cap.toNat?))
   | ["sync", s] => do pure (.sync (← s.toNat?))
   | ["createBusListener", s] => do pure (.createBusListener (← s.toNat?))
-  | ["destroyBusListener", s, c] => do pure (.destroyBusListener (← s.toNat?) (← st.cookieOf c))
-  | "addFilter" :: c :: r => do let (f, _) ← filterOf r; pure (.addFilter (← st.cookieOf c) f)
-  | "removeFilter" :: c :: r => do let (f, _) ← filterOf r; pure (.removeFilter (← st.cookieOf c) f)
-  | ["clearFilters", c] => do pure (.clearFilters (← st.cookieOf c))
-  | ["startBusListener", s, c, sc] => do pure (.startBusListener (← s.toNat?) (← st.cookieOf c) (← scopeOf sc))
-  | ["stopBusListener", s, c] => do pure (.stopBusListener (← s.toNat?) (← st.cookieOf c))
+  | ["destroyBusListener", s, c] => do pure (.destroyBusListener (← s.toNat?) (← cookieOf c))
+  | "addFilter" :: c :: r => do let (f, _) ← filterOf r; pure (.addFilter (← cookieOf c) f)
+  | "removeFilter" :: c :: r => do let (f, _) ← filterOf r; pure (.removeFilter (← cookieOf c) f)
+  | ["clearFilters", c] => do pure (.clearFilters (← cookieOf c))
+  | ["startBusListener", s, c, sc] => do pure (.startBusListener (← s.toNat?) (← cookieOf c) (← scopeOf sc))
+  | ["stopBusListener", s, c] => do pure (.stopBusListener (← s.toNat?) (← cookieOf c))
   | ["registerIntrospection", "bad"] => some (.registerIntrospection none)
   | "registerIntrospection" :: tys => do pure (.registerIntrospection (some (← tys.mapM uuidOf)))
   | ["queryIntrospection", s, t] => do pure (.queryIntrospection (← s.toNat?) (← uuidOf t))
@@ -103,6 +103,8 @@ def parseReq (st : BState) : List String → Option Req
   | ["queryIntrospectionReply", s, p] => do pure (.queryIntrospectionReply (← s.toNat?) (some (← ofHex p)))
   | ["other", k] => do pure (.other (← k.toNat?))
   | _ => none
+
+def parseReq (st : BState) : List String → Option Req := parseReqWith st.cookieOf
 
 def parseEvent (st : BState) : List String → Option Event
   | ["new", id, v] => do pure (.newConn (← id.toNat?) (← v.toNat?))
